@@ -1,4 +1,5 @@
 import LiquidVerif.Lemmas.AnalysisSim
+import LiquidVerif.Gen.NodeExprCoverage
 /-!
 # C19 — static analysis reports everything a render can touch
 
@@ -179,6 +180,24 @@ theorem analysis_counterexample :
   intro h
   have hr : Ev.get ⟨"x", "p", 4⟩ false ∈ render ce1 "" (List.replicate 12 true) := by decide
   exact analysis_counterexample_partial_reached_twice.2.1 ((h ce1 "" _ _ hr).2 rfl)
+
+/-! ## Tie of the dynamic model to the source (translator) -/
+
+/-- For every `Node` subclass of the tree under test: each attribute its `render_to_output(_async)`
+evaluates is mentioned by `expressions()` or reached through `children()`, each attribute it renders is
+mentioned by `children()`, and nothing is evaluated that the translator could not attribute to an
+attribute (waivers are listed in `Gen.C19.waivers`).  Regenerated from the source on every run. -/
+theorem exprs_covered :
+    LiquidVerif.Gen.C19.nodeRows.all (fun r =>
+      r.evaluated.all (fun a => r.yielded.contains a || r.children.contains a) &&
+      r.rendered.all (fun a => r.children.contains a) && r.unattributed.isEmpty) = true := by
+  decide
+
+/-- The table is not empty and knows the nodes C19 quantifies over. -/
+theorem exprs_table_nontrivial :
+    ["ForNode", "IncludeNode", "RenderNode", "CaptureNode", "AssignNode", "WithNode", "MacroNode", "CallNode",
+     "OutputNode", "IfNode"].all (fun c => LiquidVerif.Gen.C19.nodeRows.any (·.cls == c)) = true := by
+  decide
 
 /-! ## Non-vacuity -/
 
